@@ -2,6 +2,9 @@
 # Generates /verif/MANIFEST.json from the table below (kept in one place so that it stays valid).
 import json
 claimed = {
+ "C07": ('exploration', 'tx engine: honest transactions of every supported form (transfers v1-v3 with fee / frozen outputs, two-owner multi-signer, kernel-contract invocation, spend of a threshold-account output); for every form ALL single-field mutations reachable by reflection over the pb.Transaction schema, each with and without recomputing the txid, plus foreign-key / replay / swap / removal signature operators; no mutant of a semantic field, signature or signer is admitted (VerifyTx, then SubmitTx on a copy of the node); the unmutated transaction is admitted; digest equal implies semantic content equal over all originals and mutants', 'exhaustive single-field corruption (schema walk) per generated transaction + independent signature verifier'),
+ "C08": ('exploration', "block engine: honest blocks of 1-9 transactions from the real miner path; in flight every mutation reachable by reflection over the InternalBlock schema in 5 variants (raw, merkle recomputed, merkle+id recomputed, re-signed by a foreign key with / without its pubkey); VerifyBlock refuses every mutant differing in hashed header fields, ordered tx list or signature; what verifies goes through the real ProcBlock on a copy of the replica whose ledger must not hold a differing block and whose state must equal the producer's", 'single-field corruption (schema walk) of blocks in flight + end-to-end ledger comparison'),
+ "C14": ('exploration', "QC engine: real Smr / DefaultSaftyRules / crypto and real xpoa+BFT / tdpos+BFT nodes; certificates assembled from entry kinds {valid member, repeated member, non-member, wrong id, corrupted, key/address mismatch, collector's own}: ALL multisets up to size n+2 for n <= 4 (sliced over runs), sampled up to n = 10, on every entry path (CheckProposal, proposal handler, vote collection, CheckVote, CalVotesThreshold, CheckMinerMatch, ProcBlock); accepted implies valid signatures over the certified id from a quorum of distinct members besides the collector (independent verifier)", 'forged-certificate fault enumeration against an independent verifier'),
  "C09": ('exploration', 'Engine A operation invoke: generated kernel-contract programs (get / put / delete / bounded scan / nested call / copy / failing status / error) go through the real Chain.PreExec, are assembled, then ONE of 11 mutations of read set / write set / transient outputs / requests / limits / gas, or a stale read, or nothing; unmutated must be admitted and its commit must change exactly the write-set keys and declared outputs (raw table diff), everything else must be rejected and change nothing', 'pre-exec = verify = commit differential with single-mutation fault operators'),
  "C10": ('exploration', 'sandbox engine: random Get / Put / Del / Select(bounds, early stop) / Transfer sequences on a real StateSandbox over the real XModel (live, deleted, never-written keys, several buckets, transient bucket, unconfirmed writes) against an overlay-map model per call; RW-set checks, replay over XMReaderFromRWSet, soundness by perturbing every unread backing key, storage read / iterator faults', 'overlay-map reference model + replay + perturbation under injected read faults'),
  "C11": ('exploration', 'ACL engine: rules (thresholds with boundary weights, key sets, nested accounts) created through the real $acl contract; for every generated rule ALL signer subsets over <= 8 URIs plus duplicate / foreign / inner-name variants are evaluated by the real IdentifyAccount / CheckContractMethodPerm against a reference evaluator; sampled through full signed transactions with the rule change pending / confirmed / undone by a reorganisation', 'exhaustive signer-subset enumeration per generated rule + model-based admission oracle'),
@@ -21,9 +24,6 @@ claimed = {
  "C18": ("exploration", "Engine A: key histories (create / overwrite / delete / re-create, several writes per block, pending writes) - snapshot reads at every main-chain block compared with the model state S(B) after every step", "snapshot reads vs reference model at every height"),
 }
 pending = {
- "C07": "corruption-operator engine not yet built in this snapshot",
- "C08": "block-corruption engine not yet built in this snapshot",
- "C14": "quorum-certificate engine not yet built in this snapshot",
 }
 import importlib.util, os
 ov = "/verif/manifest_overrides.json"
